@@ -29,5 +29,6 @@ def run(ctx):
     R3.r03_10_registered_is_given(ctx, 'R10.7')
     S.r01_2_gate(ctx)
     R3.r10_8_each_class_once(ctx)
+    R3.r10_9_walk_reaches_registered_ancestors(ctx)
     from . import memo_rules as M
     M.memo_sound(ctx, 'R10.M')
